@@ -310,7 +310,7 @@ def check_rise_set(ctx, Sun, Epoch, Angle, C, y, mo, d, lat, lon, alt, klass):
     at, ht = sun_altitude(Sun, Epoch, Angle, C, tr, lat, lon)
     # tr is an upper transit (hour angle 0 to 0.01 degree); hour angles at rise/set are reported, not tested:
     # near a midnight sun they sit at -180/+180 degrees and wrap
-    ok = (r < tr < s) and abs(ht) < 0.01 and (s - r) < 1.0
+    ok = (r < tr < s) and abs(ht) < 0.01 and (s - r) <= 1.0 + 1e-6
     ctx.predicate('rise_before_transit_before_set', ok, inp,
                   {'rise': r, 'transit': tr, 'set': s, 'ha_rise': hr, 'ha_transit': ht, 'ha_set': hs}, klass)
 
@@ -571,6 +571,17 @@ def generate(ctx, shard=0, nshards=1):
                     check_rise_set(ctx, Sun, Epoch, Angle, C, y, mo, d, lat, 11.5667, alt, 'boundary')
         for lat in (10.0, 66.5):
             check_rise_set(ctx, Sun, Epoch, Angle, C, 2000, 6, 1, lat, 0.0, -1.0, 'negative_height')
+        # the concrete inputs of the listed findings
+        check_rise_set(ctx, Sun, Epoch, Angle, C, 2070, 8, 15.25, 20.5, -148.8, 3621.8, 'listed_finding')
+        check_rise_set(ctx, Sun, Epoch, Angle, C, 2100, 9, 16, 66.34586515717513, 125.72421682275035, 3904.56771053863,
+                       'listed_finding')
+        check_rts(ctx, Angle, C, dict(lon=-104.4955999756344, lat=-32.689655685512705, a2=0.0, ra_rate=-0.880656514095074,
+                                      ra_curv=-0.016876415337525166, d2=-19.519171425880018, de_rate=0.47186570309689857,
+                                      de_curv=0.009061498022653833, h0=-0.5667, dt=34.07165516233574,
+                                      theta0=0.7665856259937609), 'listed_finding')
+        check_eot_day(ctx, Sun, Epoch, C, Epoch(2020, 3, 21)._jde, 2020, 'listed_finding')
+        check_eot_day(ctx, Sun, Epoch, C, 990664.5, -2000, 'listed_finding',
+                      check_eot_day(ctx, Sun, Epoch, C, 990663.5, -2000, 'listed_finding'))
         Sun_, Ep = Sun, Epoch
         for a in ((66.0, Angle(0.0), 0.0), (Angle(10.0), 0.0, 0.0), (Angle(10.0), Angle(0.0), '0')):
             out = run_impl(lambda: Ep(2000, 1, 1).rise_set(*a))
